@@ -29,6 +29,7 @@ RULE = ('random single assemblies with asymmetric random power maps '
         'models (rotation by k*60 degrees of positions, flows, types and '
         'each power map); non-trivial when the field spread is > 1 K; '
         'distinct by (rings, ducts, wire, gap, layout)')
+RULE += (' Later rounds added: axial regions (fields compared at three planes, un-rodded regions through the corner permutation), conv-approx cores with mixed trip status.')
 DECIDING = ['R1_rotated_assembly_fields', 'R2_mirrored_assembly_fields',
             'R3_rotated_core_assembly_fields', 'R4_rotated_core_gap_fields']
 CASE_TIMEOUT = {'quick': 300, 'thorough': 1200}
